@@ -153,13 +153,15 @@ def core_specs():
     S.append(dict(name='rsocone', atom='rsocone', form='cons'))
     for form in ['const_r', 'var_r', 'scalar_q', 'affine_p']:
         S.append(dict(name='kldiv-' + form, atom='kldiv', form=form))
-    for form in ['vars', 'affine', 'const_z']:
+    for form in ['vars', 'affine', 'const_z', 'vector_y', 'vector_y_affine']:
         S.append(dict(name='expcone-' + form, atom='expcone', form=form))
+    for form in ['tight_first', 'loose_first', 'interleaved']:
+        S.append(dict(name='overlap-bounds-' + form, atom='bounds', form=form))
     # the same descriptions through the dro front end (DecVar / DecAffine / DecConvex, dro.Model.do_math).  Members the
     # dro front end rejects loudly (summed exp/log, KL divergence, rsocone: TypeError / AttributeError) are not included.
     for sp in list(S):
-        if sp['atom'] in ('sumexp', 'sumlog', 'kldiv', 'rsocone'):
-            continue
+        if sp['atom'] in ('sumexp', 'sumlog', 'kldiv', 'rsocone') or sp['form'].startswith('vector_y'):
+            continue          # (expcone with an array as left argument: ValueError inside dro.ro_to_roc, loud)
         d = dict(sp)
         d['name'] = 'dro:' + sp['name']
         d['front'] = 'dro'
@@ -352,7 +354,19 @@ def desc_from_spec(spec):
             for v in (x, y, z):
                 a.st(a.ge(v, -2.0))
                 a.st(a.le(v, 3.0))
-            if form == 'vars':
+            if form in ('vector_y', 'vector_y_affine'):
+                # the left argument is an array: z*exp(x/z) <= y[i] for every i (entries need not be equal)
+                w = a.dvar(3)
+                a.st(a.ge(w, np.array([-4.0, 1.0, 2.5])))
+                a.st(a.le(w, 8.0))
+                a.st(a.ge(z, 0.5))
+                a.st(a.le(x, 1.0))
+                if form == 'vector_y':
+                    a.st(a.expcone(w, x, z))
+                else:
+                    a.st(a.expcone(2.0 * w - y, x + 0.5, z))
+                a.min(a.sum(np.array([1.0, 2.0, 0.5]) * w) - x + 0.25 * z + 0.125 * y)
+            elif form == 'vars':
                 a.st(a.expcone(y, x, z))
                 a.st(a.ge(z, 0.5))
                 a.min(y - x + 0.25 * z)
@@ -362,6 +376,25 @@ def desc_from_spec(spec):
             else:
                 a.st(a.expcone(y, x - z, 2.0))
                 a.min(y - x + z)
+        elif atom == 'bounds':
+            # several bound objects on the same entries: all of them are constraints (bounds are intersected, whatever the
+            # order of declaration)
+            x = a.dvar(3)
+            y = a.dvar(2)
+            tight = [lambda: a.st(a.le(x[1], 1.0)), lambda: a.st(a.ge(x[0], 0.5)), lambda: a.st(a.le(y[0:1], -0.5)),
+                     lambda: a.st(a.ge(y, np.array([-1.0, -3.0])))]
+            loose = [lambda: a.st(a.le(x, 2.0)), lambda: a.st(a.ge(x, 0.0)), lambda: a.st(a.le(y, 1.0)),
+                     lambda: a.st(a.ge(y, -2.0))]
+            if form == 'tight_first':
+                seq = tight + loose
+            elif form == 'loose_first':
+                seq = loose + tight
+            else:
+                seq = [f for pair in zip(loose, tight) for f in pair][::-1]
+            for f in seq:
+                f()
+            a.max(a.sum(np.array([1.0, 1.0, 1.0]) * x) - a.sum(np.array([1.0, 2.0]) * y)) if form != 'loose_first' else \
+                a.min(a.sum(np.array([1.0, 1.0, 1.0]) * x) - a.sum(np.array([1.0, 2.0]) * y))
         elif atom == 'multi':
             x = a.dvar(3)
             u = a.dvar(())
